@@ -116,6 +116,12 @@ func (c *Collection) StartDCPFeed(
 	if c.bucket.closed {
 		return ErrBucketClosed // without a backfill nothing below would notice, and nothing would ever end the feed
 	}
+	// ...nor would anything notice that the bucket was deleted, or this collection dropped, through
+	// another handle: the feed would never end, or be fed by a re-created collection of the same name.
+	var exists int
+	if err := scan(c.bucket._db().QueryRow(`SELECT 1 FROM collections WHERE id=?1`, c.id), &exists); err != nil {
+		return fmt.Errorf("cannot start a feed on %s: %w", c, remapKeyError(err, c.DataStoreNameImpl.String()))
+	}
 	if args.Backfill != sgbucket.FeedNoBackfill {
 		debug("%s starting backfill from CAS 0x%x", feed, startCas)
 		feed.events.push(&sgbucket.FeedEvent{Opcode: sgbucket.FeedOpBeginBackfill})
